@@ -10,7 +10,7 @@ BIN=${TEMPLVET:-/verif/bin/templvet}
 git -C /repo worktree remove --force $WT 2>/dev/null
 git -C /repo worktree add -q --detach $WT ${BENIGN_BASE:-77c6893} || exit 2
 mkdir -p /tmp/benign_verif; cp /verif/known_findings.json /tmp/benign_verif/
-n=0; bad=0
+n=0; bad=0; nopen=0
 for d in benign/${1:-}*${BENIGN_SUFFIX:-}*/; do
   id=$(basename $d)
   git -C $WT checkout -q -- . ; git -C $WT clean -qfd
@@ -18,8 +18,8 @@ for d in benign/${1:-}*${BENIGN_SUFFIX:-}*/; do
   n=$((n+1))
   $BIN -repo $WT -verif /tmp/benign_verif -property all -tier ${BENIGN_TIER:-quick} > /tmp/benign_out.txt 2>&1
   r=$(grep -cE "^(VIOLATED|UNDECIDED)" /tmp/benign_out.txt)
-  if [ "$r" -eq 0 ] && grep -q "tier=" /tmp/benign_out.txt; then echo "ok    $id"; else bad=$((bad+1)); echo "ALARM $id: $r reports; first: $(grep -m1 -E '^(VIOLATED|UNDECIDED)' /tmp/benign_out.txt | cut -c1-200)"; [ "$r" -eq 0 ] && tail -3 /tmp/benign_out.txt; fi
+  if [ "$r" -eq 0 ] && grep -q "tier=" /tmp/benign_out.txt; then echo "ok    $id"; elif grep -q "^$id " /verif/benign/OPEN.txt 2>/dev/null; then nopen=$((nopen+1)); echo "OPEN  $id: $r reports; first: $(grep -m1 -E '^(VIOLATED|UNDECIDED)' /tmp/benign_out.txt | cut -c1-160)"; else bad=$((bad+1)); echo "ALARM $id: $r reports; first: $(grep -m1 -E '^(VIOLATED|UNDECIDED)' /tmp/benign_out.txt | cut -c1-200)"; [ "$r" -eq 0 ] && tail -3 /tmp/benign_out.txt; fi
 done
 git -C /repo worktree remove --force $WT
 rm -rf /tmp/benign_verif /tmp/benign_out.txt
-echo "$n refactorings, $bad with false alarms"
+echo "$n refactorings, $bad with false alarms, $nopen open (listed in benign/OPEN.txt)"
